@@ -8,23 +8,23 @@ PY = "/venv/bin/python"
 
 CHECKS = {
     "C01": dict(cat="exploration",
-        text="Held on the generated executions only: real GeminiServerProtocol driven by scripted event orders on a virtual clock (L1, incl. the production wiring captured from start_server on hostile capsules) and through both real TLS layers in-process (L2); a response-stream automaton judges every connection (exactly one well-formed header, body only for 2x, closed, nothing after). Handler/middleware outcomes cover 16 exception types (incl. CancelledError, exceptions whose __str__ raises), hostile messages, wrongly typed response fields and message-less refusals. L2 also runs against a pipe of 16 B - 4 KiB whose client reads whatever arrives (what the network has not taken is still owed).",
+        text="Held on the generated executions only: real GeminiServerProtocol driven by scripted event orders on a virtual clock (L1, incl. the production wiring captured from start_server on hostile capsules) and through both real TLS layers in-process (L2); a response-stream automaton judges every connection (exactly one well-formed header, body only for 2x, closed, nothing after). Handler/middleware outcomes cover 16 exception types (incl. CancelledError, exceptions whose __str__ raises), hostile messages, wrongly typed response fields and message-less refusals. L2 also runs against a pipe of 16 B - 4 KiB whose client reads whatever arrives (what the network has not taken is still owed). One process also answers hundreds (thorough: thousands) of distinct valid request lines and then the early ones again.",
         note="FakeTransport models CPython 3.12 sslproto transport semantics; reach bounded by the generators (evidence: input_class / outcome / state_tuples).",
         tech="runtime monitoring: response-stream automaton over recorded connection traces (virtual-time protocol simulator + in-process TLS sandwich)"),
     "C02": dict(cat="exploration",
-        text="Held on the generated trees and spellings: StaticFileHandler.handle is called on real directory trees (symlink topologies, prefix-sharing siblings, root via symlink) with traversal spellings aimed at every outside file; unique sentinels in every file decide containment and availability; a live sample goes through start_server. Document roots also change under running handlers (entries replaced by outside links and restored), judged against the tree at each request.",
+        text="Held on the generated trees and spellings: StaticFileHandler.handle is called on real directory trees (symlink topologies, prefix-sharing siblings, root via symlink) with traversal spellings aimed at every outside file; unique sentinels in every file decide containment and availability; a live sample goes through start_server. Document roots also change under running handlers (entries replaced by outside links and restored), judged against the tree at each request. Trees contain zero-byte files; every handler call runs under a budget of the process's own CPU time, so a request that is never answered is observed as such.",
         note="Containment oracle uses os.path.realpath/commonpath; availability only required for symlink-free, UTF-8 named files (literal spelling only for pchar names).",
         tech="runtime monitoring: sentinel-token oracle on responses + audit-hook trail of open/listdir (L0 handler calls, L3 live sample)"),
     "C03": dict(cat="exploration",
-        text="Held on the explored histories: TOFUDatabase histories (exhaustive to depth 4/5) and GeminiClient get/upload/redirect histories against scripted TLS peers whose certificates are swapped (RSA/EC/Ed25519 and DER-tampered certificates the X.509 parser rejects), over a 16-operation alphabet (quick: a fifth of the depth-3 histories; thorough: all of depth 3 and a third of depth 4) plus random long histories; after every step outcome and known_hosts are compared with an abstract pin map. Histories include replace-mode imports, export->import restores and calls inside `async with`; a separate scenario keeps 2-4 calls in flight towards an unpinned host whose peer rotates its certificate per connection. Pool certificates share subject, issuer and serial number (different keys); peers that answer before the request (end of handshake + response + close_notify in one segment) are included.",
+        text="Held on the explored histories: TOFUDatabase histories (exhaustive to depth 4/5) and GeminiClient get/upload/redirect histories against scripted TLS peers whose certificates are swapped (RSA/EC/Ed25519 and DER-tampered certificates the X.509 parser rejects), over a 16-operation alphabet (quick: a fifth of the depth-3 histories; thorough: all of depth 3 and a third of depth 4) plus random long histories; after every step outcome and known_hosts are compared with an abstract pin map. Histories include replace-mode imports, export->import restores and calls inside `async with`; a separate scenario keeps 2-4 calls in flight towards an unpinned host whose peer rotates its certificate per connection. Pool certificates share subject, issuer and serial number (different keys); peers that answer before the request (end of handshake + response + close_notify in one segment) are included. One store object is also taken through thousands of hosts (thorough: 70 000) and asked again about the early ones with pinned and other certificates.",
         note="Pin key = (lower-cased host, port) as derived from the URL; TOFU-off runs only check that the store stays untouched.",
         tech="runtime monitoring: step-by-step comparison of real outcomes and the sqlite table with a reference pin-map model over live TLS histories"),
     "C04": dict(cat="exploration",
-        text="Held on the explored chains: real MiddlewareChain over real RateLimiter/AccessControl/CertificateAuth and scripted allow/deny/raise/slow components in every order (1-3 components), gemini and titan requests, reads and disconnects while the chain is pending, both TLS layers; recording proxies, spy handlers, an audit hook and tree snapshots give the per-connection order of chain/handler/filesystem events. A listed certificate, look-alikes (same names and serial, other key), unlisted and no certificate take turns on one process (L1 and PyOpenSSL).",
+        text="Held on the explored chains: real MiddlewareChain over real RateLimiter/AccessControl/CertificateAuth and scripted allow/deny/raise/slow components in every order (1-3 components), gemini and titan requests, reads and disconnects while the chain is pending, both TLS layers; recording proxies, spy handlers, an audit hook and tree snapshots give the per-connection order of chain/handler/filesystem events. A listed certificate, look-alikes (same names and serial, other key), unlisted and no certificate take turns on one process (L1 and PyOpenSSL). One chain also lives through a crowd of thousands of other addresses between a drained client's visits.",
         note="Expected decision is computed from configuration by the harness; scripted deny responses are well-formed.",
         tech="runtime monitoring: per-connection event-order check (mw_start/mw_end/handler_start/fs events) on the virtual-time simulator and TLS sandwich"),
     "C05": dict(cat="exploration",
-        text="Held on the generated configurations: the production wiring captured from start_server (PyOpenSSL backend) runs in the TLS sandwich with client certificates really presented; rule lists as objects and through TOML; every file/directory is requested in many spellings; the sentinel in the body identifies what was served and the policy is evaluated on its canonical location; live sample on real sockets. Rule files are also loaded and wired by the `nauyaca serve` command itself (create_server stubbed); spellings include escapes of escapes and dot segments inside the query.",
+        text="Held on the generated configurations: the production wiring captured from start_server (PyOpenSSL backend) runs in the TLS sandwich with client certificates really presented; rule lists as objects and through TOML; every file/directory is requested in many spellings; the sentinel in the body identifies what was served and the policy is evaluated on its canonical location; live sample on real sockets. Rule files are also loaded and wired by the `nauyaca serve` command itself (create_server stubbed); spellings include escapes of escapes and dot segments inside the query. Each multi-rule wiring also serves a long run of requests under a single rule before every client asks for every protected file.",
         note="Rule prefixes are directory-level; capsules have no symlinks; over-blocking judged only for canonical spellings.",
         tech="runtime monitoring: sentinel-identified resource vs first-matching-rule policy model, real TLS client certificates (L2 sandwich, L3 live)"),
     "C06": dict(cat="exploration",
@@ -32,7 +32,7 @@ CHECKS = {
         note="Client side is CPython ssl/OpenSSL 3.0; sizes are the listed boundary set plus random ones, not every length; CPython's own 30 s ssl_shutdown_timeout bounds how long a stalled reader can be served.",
         tech="runtime monitoring: byte-exact stream comparison at the client boundary (position-counter bodies) on L2 sandwich and L3 live sockets"),
     "C07": dict(cat="exploration",
-        text="Held on the explored segmentations: for each client byte string the single-read run is the baseline; all 2^(n-1) segmentations of short requests, all 1-/2-cut and random multi-cut ones of long requests, three schedules (burst, reads during a running handler), the real FileUploadHandler, and ciphertext cuts / multi-record reads / Finished+data coalescing on both TLS layers must reproduce response bytes, upload effect and <=1 handler entry.",
+        text="Held on the explored segmentations: for each client byte string the single-read run is the baseline; all 2^(n-1) segmentations of short requests, all 1-/2-cut and random multi-cut ones of long requests, three schedules (burst, reads during a running handler), the real FileUploadHandler, and ciphertext cuts / multi-record reads / Finished+data coalescing on both TLS layers must reproduce response bytes, upload effect and <=1 handler entry. Uploads of 20 000 - 600 000 bytes go through both TLS layers with the ciphertext cut into reads of 16 KiB - 256 KiB.",
         note="Reads after transport.close() are not delivered (sslproto semantics).",
         tech="runtime monitoring: differential comparison against the single-read baseline + handler-entry counting (L1 simulator, L2 sandwich)"),
     "C08": dict(cat="exploration",
@@ -40,15 +40,15 @@ CHECKS = {
         note="Grey zones (chars outside the URI alphabet, empty userinfo/fragment, ports > 65535, IPvFuture, odd titan params) are undecided and counted.",
         tech="runtime monitoring: independent URI recogniser as oracle over spy-observed handler arguments (L1 simulator)"),
     "C09": dict(cat="exploration",
-        text="Held on the generated configurations and peers: AccessControl built from objects, and TOML -> ServerConfig.from_toml -> get_access_control_config -> start_server wiring -> protocol with fake peer addresses, plus live sockets from 127.0.0.1 and ::1; decisions compared with an integer-arithmetic CIDR model at and around every network boundary. Lists are also loaded and wired by the `nauyaca serve` command itself (create_server stubbed).",
+        text="Held on the generated configurations and peers: AccessControl built from objects, and TOML -> ServerConfig.from_toml -> get_access_control_config -> start_server wiring -> protocol with fake peer addresses, plus live sockets from 127.0.0.1 and ::1; decisions compared with an integer-arithmetic CIDR model at and around every network boundary. Lists are also loaded and wired by the `nauyaca serve` command itself (create_server stubbed). One component also decides about thousands (thorough: 70 000) of distinct peers and then about the early ones again.",
         note="Empty allow list and IPv4-mapped peers are grey; host-bits-set entries may prevent start-up or be read as the enclosing network.",
         tech="runtime monitoring: decision-by-decision comparison with an integer CIDR reference model (L0 objects, L1 captured wiring, L3 live)"),
     "C10": dict(cat="exploration",
-        text="Held on the explored histories: the real RateLimiter with its clean-up task runs on a virtual-time loop; exhaustive gap sequences for capacity<=2 and random long histories spanning many clean-up ticks are compared step by step with an exact Fraction token bucket without eviction, checked against the window bound capacity+rate*T by an independent O(n) scan, and re-run per address for independence. The limiter is also observed behind both TLS layers as start_server wires them and as the `nauyaca serve` command wires it (file, file silent about limits, no file); address pools contain look-alike texts.",
+        text="Held on the explored histories: the real RateLimiter with its clean-up task runs on a virtual-time loop; exhaustive gap sequences for capacity<=2 and random long histories spanning many clean-up ticks are compared step by step with an exact Fraction token bucket without eviction, checked against the window bound capacity+rate*T by an independent O(n) scan, and re-run per address for independence. The limiter is also observed behind both TLS layers as start_server wires them and as the `nauyaca serve` command wires it (file, file silent about limits, no file); address pools contain look-alike texts. Histories include crowds of up to 70 000 distinct addresses between the visits of drained clients.",
         note="Time is read only through middleware.time.monotonic (patched to the virtual clock); dyadic rates make float arithmetic exact, other rates use a 1e-9 grey band.",
         tech="runtime monitoring: online comparison with an exact-arithmetic reference bucket + offline window-bound checker on recorded decision histories (virtual clock)"),
     "C11": dict(cat="exploration",
-        text="Held on the explored situations: GeminiClient get/upload/delete against scripted TLS peers in pinned/unpinned/changed/unparsable/redirect-to-changed situations with eager, lazy and late-reading peers; the peer's count of decrypted application bytes after draining to EOF and the client-side order of transport writes versus verify() returns are both monitored. Client configurations: plain TOFU, CA verification + TOFU (private CA that signed both certificates), TOFU with a client certificate; host spelled as address / lower / mixed / upper case; client reuse, `async with`, concurrent calls, store faults. Stores reached through relative paths across a chdir, used right after a failed import, holding pins of look-alike neighbours; look-alike certificates (same names and serial); the `nauyaca get` command with a scratch HOME.",
+        text="Held on the explored situations: GeminiClient get/upload/delete against scripted TLS peers in pinned/unpinned/changed/unparsable/redirect-to-changed situations with eager, lazy and late-reading peers; the peer's count of decrypted application bytes after draining to EOF and the client-side order of transport writes versus verify() returns are both monitored. Client configurations: plain TOFU, CA verification + TOFU (private CA that signed both certificates), TOFU with a client certificate; host spelled as address / lower / mixed / upper case; client reuse, `async with`, concurrent calls, store faults. Stores reached through relative paths across a chdir, used right after a failed import, holding pins of look-alike neighbours; look-alike certificates (same names and serial); the `nauyaca get` command with a scratch HOME. Clients built while the pin store could not be opened or initialised are used once it is healthy again.",
         note="Writes are observed at asyncio.sslproto._SSLProtocolTransport.write.",
         tech="runtime monitoring: peer-side byte counting + client-side event-order monitor (write vs verify_return) on live TLS connections"),
     "C12": dict(cat="fault_enumeration",
@@ -60,7 +60,7 @@ CHECKS = {
         note="Grey status tokens and malformed charset parameters are undecided; L3 timeouts are watchdogs, verdicts use event order.",
         tech="runtime monitoring: independent response parser as oracle + future-resolution monitor (L1 virtual loop, L3 live peers)"),
     "C14": dict(cat="fault_enumeration",
-        text="FileUploadHandler (also via ServerConfig.get_upload_handler and through the protocol) on upload trees with symlinks and prefix-sharing siblings; every stored/replaced/deleted upload is re-run with RLIMIT_FSIZE partial writes (0,1,half,size-1) and with an injected ENOSPC/EIO/EACCES at every index of the open/replace/rename/unlink/mkdir call sequence; a byte-exact diff of the directory and its surroundings plus the audit trail must show exactly one authorised change or none. One handler serves the same paths again while the upload tree is rearranged between requests; an accepted request must have changed the file its path denotes at that moment.",
+        text="FileUploadHandler (also via ServerConfig.get_upload_handler and through the protocol) on upload trees with symlinks and prefix-sharing siblings; every stored/replaced/deleted upload is re-run with RLIMIT_FSIZE partial writes (0,1,half,size-1) and with an injected ENOSPC/EIO/EACCES at every index of the open/replace/rename/unlink/mkdir call sequence; a byte-exact diff of the directory and its surroundings plus the audit trail must show exactly one authorised change or none. One handler serves the same paths again while the upload tree is rearranged between requests; an accepted request must have changed the file its path denotes at that moment. Upload sizes go up to 4 MiB + 1 (powers of two and their neighbours); one handler also serves hundreds of requests in a row.",
         note="Single fault per request; parent-directory creation tolerated and counted.",
         tech="runtime monitoring with fault injection: tree-diff + audit-trail oracle under enumerated OS-call failpoints and real partial writes"),
     "C15": dict(cat="exploration",
@@ -84,7 +84,7 @@ CHECKS = {
         note="Host comparison case-insensitive; '' == '/' for paths; empty query == no query.",
         tech="runtime monitoring: round-trip/idempotence oracle against an independent URI recogniser (L0 calls, L3 live client/server)"),
     "C20": dict(cat="exploration",
-        text="Held on the probed cells: real handshakes offering exactly one protocol version (TLS 1.0-1.3, SECLEVEL 0) against all four start_server construction paths and both factory functions with client-cert request on/off; client contexts (TOFU, CA, GeminiClient.get) against peers capped at TLS 1.0/1.1; plaintext and random bytes to every server variant, and (virtual time, both TLS layers) peers that send nothing / a few bytes / partial records and then wait past every timeout - everything ever written to the raw socket is inspected. Each refusal is paired with a control peer proving the old version is otherwise negotiable here. Certificate / key files that are out of order at start-up (nine kinds): refuse to start or listen with TLS; what the `nauyaca serve` command listens with is probed for clear text and, at security level 0, for the version floor.",
+        text="Held on the probed cells: real handshakes offering exactly one protocol version (TLS 1.0-1.3, SECLEVEL 0) against all four start_server construction paths and both factory functions with client-cert request on/off; client contexts (TOFU, CA, GeminiClient.get) against peers capped at TLS 1.0/1.1; plaintext and random bytes to every server variant, and (virtual time, both TLS layers) peers that send nothing / a few bytes / partial records and then wait past every timeout - everything ever written to the raw socket is inspected. Each refusal is paired with a control peer proving the old version is otherwise negotiable here. Certificate / key files that are out of order at start-up (nine kinds): refuse to start or listen with TLS; what the `nauyaca serve` command listens with is probed for clear text and, at security level 0, for the version floor. Servers that follow one another in one process (built, lowered to security level 0, probed, collected) are each offered TLS 1.1; the controls use PyOpenSSL / ssl directly, never nauyaca code.",
         note="SSLv3 cannot be offered by this interpreter (recorded as unreachable).",
         tech="runtime monitoring: control-validated handshake probing and plaintext probes on live sockets"),
 }
